@@ -243,7 +243,13 @@ def run(M, rep, tier, only=None):
             if is_const(rv):
                 continue
             if rv.t[0] == "attr" and rv.t[1] == ("self",):
-                continue            # cached parent handle (fixed location)
+                # a remembered parent: fine iff that field is only ever given a containing parent (or None)
+                why = parent_field_ok(M, cn, rv.t[2], f)
+                if why:
+                    bad = (p, "the parent is answered from self.%s, which %s: for an entity reached through a link that is the linking "
+                           "entity, not the containing one" % (rv.t[2], why))
+                    break
+                continue
             nret += 1
             tests = [(a, v) for a, v in p.decisions if a[0] == "in" and v is True]
             ok = False
@@ -290,6 +296,28 @@ def run(M, rep, tier, only=None):
 
     # ------------------------------------------------------------------ R4 / R5
     referring(M, rep, ctx, R4, R5)
+
+
+def parent_field_ok(M, cn, field, getter):
+    """None if every assignment to <x>.<field> in the package gives it a containing parent: None, the candidate found by the search
+    inside the getter itself, or `self` inside a create_* method of the class (the creator contains what it creates)"""
+    for q, f in M.funcs.items():
+        if f.module.name.startswith("nixio.cmd"):
+            continue
+        for n in ast.walk(f.node):
+            if not isinstance(n, ast.Assign):
+                continue
+            for t in n.targets:
+                if isinstance(t, ast.Attribute) and t.attr == field:
+                    v = n.value
+                    if isinstance(v, ast.Constant) and v.value is None:
+                        continue
+                    if f is getter:
+                        continue
+                    if f.name.startswith("create_") and isinstance(v, ast.Name) and f.params and v.id == f.params[0]:
+                        continue
+                    return "is also set in %s from %s" % (q.split(":")[-1], ast.unparse(v)[:40])
+    return None
 
 
 def is_const_term(t):
